@@ -254,3 +254,52 @@ Qed.
 
 Lemma finish_no_select q : q_select q = [] -> finish q = RErr.
 Proof. intros H. unfold finish. now rewrite H. Qed.
+
+(* ---- set: $a = x $b = y ...  (plain right-hand sides: a field, a number, no function call) ---- *)
+Section DenoteSet.
+  Variable is_float : bytes -> bool.
+  Variable atoi : bytes -> option Z.
+  Notation eff := (eff is_float atoi).
+
+  Definition eitem := (tok * tok)%type.       (* left-hand side, right-hand side *)
+  Definition eitem_ok (e : eitem) : Prop :=
+    let '(l, r) := e in
+    t_bare l = true /\ bprefix [dollar] (t_str l) = true /\ t_stripped r = false /\
+    match last_byte (t_str r) with Some c => beqb c rparen | None => false end = false.
+  Definition eitem_den (e : eitem) : setc :=
+    let '(l, r) := e in
+    {| e_lstr := t_str l; e_rtype := if is_float (t_str r) then TFloat else TField; e_rstr := t_str r; e_funcs := [] |}.
+  Fixpoint etoks (es : list eitem) : list tok :=
+    match es with [] => [] | (l, r) :: rest => l :: bare_tok (B"=") :: r :: etoks rest end.
+
+  Lemma make_set1_den l r : eitem_ok (l, r) -> make_set1 is_float l (bare_tok (B"=")) r = ROk (eitem_den (l, r)).
+  Proof.
+    intros (Hb & Hp & Hst & Hl). unfold make_set1, eitem_den. cbn [t_str bare_tok].
+    change (bytes_eqb (B"=") (B"=")) with true. cbn [negb]. rewrite Hb, Hp, Hst, Hl. reflexivity.
+  Qed.
+
+  Lemma make_set_items : forall es fuel, Forall eitem_ok es -> length (etoks es) < fuel ->
+    (forall l r, In (l, r) es -> bytes_eqb (lower (t_str l)) (lower (B",")) = false) ->
+    make_set is_float fuel (etoks es) = ROk (map eitem_den es).
+  Proof.
+    induction es as [|[l r] rest IH]; intros fuel Hok Hf Hnc.
+    - destruct fuel; [cbn in Hf; lia|reflexivity].
+    - inversion Hok as [|? ? He Hr]; subst. destruct fuel as [|f]; [lia|].
+      cbn [etoks make_set]. rewrite make_set1_den by exact He. cbn [rbind].
+      assert (Eo : consume_optional (etoks rest) (B",") = etoks rest).
+      { destruct rest as [|[l2 r2] rest']; [reflexivity|]. cbn [etoks consume_optional]. rewrite (Hnc l2 r2) by (right; now left). reflexivity. }
+      rewrite Eo, IH; [reflexivity|exact Hr| |].
+      + cbn [etoks length] in Hf. lia.
+      + intros a b Hin. apply (Hnc a b). now right.
+  Qed.
+
+  Theorem set_denotes es : es <> [] -> Forall eitem_ok es -> Forall simple (etoks es) ->
+    (forall l r, In (l, r) es -> bytes_eqb (lower (t_str l)) (lower (B",")) = false) ->
+    eff (B"set") (etoks es) = ROk ([], USet (map eitem_den es)).
+  Proof.
+    intros Hne Hok Hs Hnc. unfold C11_Order.eff.
+    change (bytes_eqb (B"set") (B"select")) with false. change (bytes_eqb (B"set") (B"from")) with false.
+    change (bytes_eqb (B"set") (B"where")) with false. change (bytes_eqb (B"set") (B"set")) with true. cbn iota.
+    rewrite (consume_simple _ Hs). rewrite make_set_items; [reflexivity|exact Hok|lia|exact Hnc].
+  Qed.
+End DenoteSet.
